@@ -40,6 +40,7 @@
 //! Every call is bracketed by two tickets from one global counter. (The voters of the three-party coordinator are
 //! those of `agent_timeout_coordinator`, of the two-party one those of `downlink_timeout_coordinator`.)
 //! out:  t0=<call>,… t1=… ready=<0|1>    call = v|r U|P :<start>-<end>  or  d:<start>-<end>
+//! and (every 100th case) `wake <n> <seed> <rounds>`: the waiter rounds, see `wake_case`.
 use std::collections::{BTreeMap, HashMap};
 use std::num::NonZeroUsize;
 use std::sync::{Arc, Mutex};
@@ -1209,12 +1210,146 @@ fn threads_case(n: usize, seed: u64, len: u64) -> String {
     toks.join(" ")
 }
 
+
+/// `wake <n> <seed> <rounds>`: the waiter. Per round a fresh coordinator for `n` voters; every voter sits on its own
+/// (persistent) thread and casts ONE vote after a tiny random spin; the calling thread polls the real `Receiver` with a
+/// real park/unpark waker after its own random spin, so that the final vote races with the poll. A poll that returned
+/// `Pending` must be woken by the vote that completes unanimity: once every vote of the round has returned (`wake()` is
+/// called inside `vote()`), a waker that has not been woken is a LOST WAKE-UP.
+/// out: rounds=<r> ready=<polls that were Ready at once> pending=<p> woken=<w> lost=<l> unanimous=<votes told Unanimous>
+fn wake_case(n: usize, seed: u64, rounds: u64) -> String {
+    use std::sync::atomic::{AtomicBool, AtomicU64, Ordering};
+    use std::task::{Context, Poll, Wake, Waker};
+    use swimos_runtime::verif::timeout_coord::{coordinator, VoteResult, Voter};
+
+    struct ParkWaker {
+        thread: std::thread::Thread,
+        woken: AtomicBool,
+    }
+    impl Wake for ParkWaker {
+        fn wake(self: Arc<Self>) {
+            self.woken.store(true, Ordering::SeqCst);
+            self.thread.unpark();
+        }
+    }
+    struct Shared {
+        go: AtomicU64,
+        done: AtomicU64,
+        unanimous: AtomicU64,
+        slots: Vec<Mutex<Option<Voter>>>,
+    }
+    let shared = Arc::new(Shared {
+        go: AtomicU64::new(0),
+        done: AtomicU64::new(0),
+        unanimous: AtomicU64::new(0),
+        slots: (0..n).map(|_| Mutex::new(None)).collect(),
+    });
+    let mut handles = vec![];
+    for i in 0..n {
+        let sh = shared.clone();
+        let mut rng = Rng::new(seed.wrapping_mul(131).wrapping_add(i as u64 + 1));
+        handles.push(std::thread::spawn(move || {
+            for round in 1..=rounds {
+                let mut idle = 0u32;
+                while sh.go.load(Ordering::Acquire) != round {
+                    idle += 1;
+                    if idle % 512 == 0 {
+                        std::thread::yield_now();
+                    } else {
+                        std::hint::spin_loop();
+                    }
+                }
+                let voter = sh.slots[i].lock().unwrap().take();
+                for _ in 0..rng.below(48) {
+                    std::hint::spin_loop();
+                }
+                if let Some(v) = voter {
+                    if v.vote() == VoteResult::Unanimous {
+                        sh.unanimous.fetch_add(1, Ordering::SeqCst);
+                    }
+                    sh.done.fetch_add(1, Ordering::SeqCst);
+                    drop(v);
+                }
+            }
+        }));
+    }
+    let mut rng = Rng::new(seed);
+    let (mut ready, mut pending, mut woken, mut lost) = (0u64, 0u64, 0u64, 0u64);
+    for round in 1..=rounds {
+        let (voters, mut rx) = match coordinator(n) {
+            Some(x) => x,
+            None => return "bad-op".into(),
+        };
+        for (i, v) in voters.into_iter().enumerate() {
+            *shared.slots[i].lock().unwrap() = Some(v);
+        }
+        let pw = Arc::new(ParkWaker { thread: std::thread::current(), woken: AtomicBool::new(false) });
+        let waker = Waker::from(pw.clone());
+        let mut cx = Context::from_waker(&waker);
+        shared.go.store(round, Ordering::Release);
+        for _ in 0..rng.below(96) {
+            std::hint::spin_loop();
+        }
+        match std::future::Future::poll(std::pin::Pin::new(&mut rx), &mut cx) {
+            Poll::Ready(()) => ready += 1,
+            Poll::Pending => {
+                pending += 1;
+                // block like a task would: parked until the waker is used (or every vote of the round has returned)
+                let all = n as u64 * round;
+                loop {
+                    if pw.woken.load(Ordering::SeqCst) {
+                        woken += 1;
+                        break;
+                    }
+                    if shared.done.load(Ordering::SeqCst) == all {
+                        if pw.woken.load(Ordering::SeqCst) {
+                            woken += 1;
+                        } else {
+                            lost += 1;
+                        }
+                        break;
+                    }
+                    std::thread::park_timeout(Duration::from_micros(50));
+                }
+            }
+        }
+        let all = n as u64 * round;
+        let mut idle = 0u32;
+        while shared.done.load(Ordering::SeqCst) != all {
+            idle += 1;
+            if idle % 512 == 0 {
+                std::thread::yield_now();
+            } else {
+                std::hint::spin_loop();
+            }
+        }
+    }
+    for h in handles {
+        let _ = h.join();
+    }
+    format!(
+        "rounds={} ready={} pending={} woken={} lost={} unanimous={}",
+        rounds,
+        ready,
+        pending,
+        woken,
+        lost,
+        shared.unanimous.load(std::sync::atomic::Ordering::SeqCst)
+    )
+}
+
 fn threads_ops(t: &mut Trace, ops: &[String]) {
     for op in ops {
         let p: Vec<&str> = op.split_whitespace().collect();
         match p.as_slice() {
             ["threads", n, seed, len] => match (n.parse::<usize>(), seed.parse::<u64>(), len.parse::<u64>()) {
                 (Ok(n), Ok(seed), Ok(len)) if (2..=3).contains(&n) && len <= 10000 => t.op(op, threads_case(n, seed, len)),
+                _ => t.op(op, "bad-op"),
+            },
+            ["wake", n, seed, rounds] => match (n.parse::<usize>(), seed.parse::<u64>(), rounds.parse::<u64>()) {
+                (Ok(n), Ok(seed), Ok(rounds)) if (2..=3).contains(&n) && rounds <= 10_000_000 => {
+                    t.op(op, wake_case(n, seed, rounds))
+                }
                 _ => t.op(op, "bad-op"),
             },
             _ => t.op(op, "bad-op"),
@@ -1282,7 +1417,7 @@ fn rt_gen(rng: &mut Rng) -> Vec<String> {
 fn run_case(t: &mut Trace, ops: &[String]) {
     match ops.first().and_then(|o| o.split_whitespace().next()) {
         Some("rt") => rt_case(t, ops),
-        Some("threads") => threads_ops(t, ops),
+        Some("threads") | Some("wake") => threads_ops(t, ops),
         Some("dl") => dl_case(t, ops),
         Some("pr") => pr_case(t, ops),
         _ => {
@@ -1302,11 +1437,16 @@ fn main() {
             let mut rng = Rng::new(seed);
             for c in 0..cases {
                 let ops = match engine.as_str() {
+                    // every 100th case of the thread engine is a batch of waiter rounds
+                    "threads" if c % 100 == 99 => {
+                        vec![format!("wake {} {} {}", rng.range(2, 3), rng.next() % 1_000_000_007, 2000)]
+                    }
                     "threads" => {
                         let n = rng.range(2, 3);
                         let len = *rng.pick(&[2u64, 4, 8, 16, 40, 120]);
                         vec![format!("threads {} {} {}", n, rng.next() % 1_000_000_007, len)]
                     }
+                    "wake" => vec![format!("wake {} {} {}", rng.range(2, 3), rng.next() % 1_000_000_007, 4000)],
                     "dl" => dl::gen(&mut rng),
                     "pr" => pr::gen(&mut rng),
                     _ => rt_gen(&mut rng),
